@@ -27,6 +27,8 @@ import json, traceback, math
 from .common import *
 from . import c12_pit as cp
 from . import c12_mix as cm
+from . import c04_gen
+from .c04_gen import regenerate      # setup.sh regenerates Gen/PitCostGen.v through this name (Props/C12gen.v bridges it to Model/CostGrad.v)
 
 STYLES = ['rand', 'zeros', 'small', 'big', 'rand']
 
@@ -52,7 +54,13 @@ def _vkey(k):
 
 def run(ctx):
     torch = setup_torch()
-    built = ctx.build()
+    # second tie, by composition: the PIT cost GENERATED from the source on this run (C04's translator) is proved equal to the
+    # cost of Model/CostGrad.v on every network and every mask (Proofs/CostGradBridge.v), so the value / monotonicity / gradient
+    # sentences of Props/C12.v are restated about the code as it is now in Props/C12gen.v
+    gen_rejected = c04_gen.regenerate(ctx)
+    built = ctx.build(extra_props=['C12gen'])
+    ctx.extra['generated_model'] = {'file': 'coq/Gen/PitCostGen.v', 'translator': c04_gen.TRANSLATOR, 'source': c04_gen.SOURCE, 'bridge': 'coq/Proofs/CostGradBridge.v (to_costgrad, to_std, to_g8)',
+                                    'status': ('refused: ' + gen_rejected) if gen_rejected else 'regenerated; the generated continuous PIT cost equals Model/CostGrad.pit_cost on every network and mask (C12_generated_*)' if built else 'regenerated; obligations do not check'}
     npit = 40 if ctx.quick else 360
     ctx.rule = ('(a) PIT: grammar architectures (1-D causal and 2-D; conv/depthwise/residual/concat/pool/flatten/linear heads) x all applicable built-in specs as a dictionary '
                 '+ one single specification; trainable mask parameters seeded with dyadic values (styles rand / with exact zeros / small / big); per network: value, autograd '
@@ -239,7 +247,10 @@ def run(ctx):
                         'MPS/SuperNet/ODiMO: branch costs and sampled coefficients are inputs of the model (read from the implementation); exp of the ODiMO softmax is computed by the harness']
 
     if not ctx.violations:   # a printed KNOWN-FINDING must not hide a broken proof / model / correspondence
-        if not built:
+        if not built and gen_rejected:
+            ctx.violation('translator-rejected', {'translator': c04_gen.TRANSLATOR, 'source': c04_gen.SOURCE, 'reason': gen_rejected, 'theorems': [o[0] for o in ctx.obligations if not o[1]]},
+                          'the source of the PIT cost composition is outside the subset the translator accepts (%s): no generated model, the C12_generated_* theorems are not established' % gen_rejected[:300], no_input=True)
+        elif not built:
             ctx.violation('proof-broken', {'theorems': [o[0] for o in ctx.obligations if not o[1]], 'log': getattr(ctx, 'broken_log', '')[-3000:]}, 'Props/C12.v no longer checks', no_input=True)
         elif not model_ok:
             ctx.violation('model-eval-broken', {'notes': ctx.notes}, 'the model could not be evaluated', no_input=True)
